@@ -14,6 +14,7 @@ import (
 	"github.com/ethereum/go-ethereum/common"
 	"github.com/ethereum/go-ethereum/core/state"
 	ethcrypto "github.com/ethereum/go-ethereum/crypto"
+	rtypes "github.com/rigochain/rigo-go/ctrlers/types"
 	sm "github.com/tendermint/tendermint/state"
 	tmtypes "github.com/tendermint/tendermint/types"
 )
@@ -69,10 +70,12 @@ type blockFacts struct {
 	evidence    bool
 	missed      bool
 	govApplied  bool
+	hugeWithdrawFailed map[Addr]bool // senders of a failed withdrawal of 2^255 or more (an amount no account accepts)
+	forgedCheck bool // the block producer served a CheckTx of a tx altered after signing since the previous commit
 }
 
 func (w *World) facts(h int64, block *tmtypes.Block, res *BlockResult) *blockFacts {
-	f := &blockFacts{failedTouch: map[Addr]bool{}, kinds: map[string]bool{}, kindsFailed: map[string]bool{}}
+	f := &blockFacts{failedTouch: map[Addr]bool{}, kinds: map[string]bool{}, kindsFailed: map[string]bool{}, hugeWithdrawFailed: map[Addr]bool{}}
 	for i, p := range w.curPlans {
 		if i >= len(res.DeliverTxs) {
 			break
@@ -87,12 +90,16 @@ func (w *World) facts(h int64, block *tmtypes.Block, res *BlockResult) *blockFac
 			if p.Tx != nil {
 				f.failedTouch[ToAddr(p.Tx.From)] = true
 				f.failedTouch[ToAddr(p.Tx.To)] = true
+				if pl, ok := p.Tx.Payload.(*rtypes.TrxPayloadWithdraw); ok && pl.ReqAmt != nil && pl.ReqAmt.Sign() < 0 {
+					f.hugeWithdrawFailed[ToAddr(p.Tx.From)] = true
+				}
 			}
 		} else {
 			f.kinds[k] = true
 		}
 	}
 	f.evidence = len(block.Evidence.Evidence) > 0
+	f.forgedCheck = w.forgedCheckH > 0 && w.forgedCheckH >= h-1
 	if block.LastCommit != nil {
 		for _, s := range block.LastCommit.Signatures {
 			if s.Absent() {
@@ -111,6 +118,8 @@ func (f *blockFacts) propsFor(kind string, addr *Addr) []string {
 		}
 	}
 	failedHere := f.hasFailed && (addr == nil || f.failedTouch[*addr])
+	// a tx that does not carry its sender's signature must have no effect, also through the mempool check
+	add("C03", f.forgedCheck)
 	switch kind {
 	case "balance":
 		add("C05", failedHere)
@@ -336,7 +345,7 @@ func (w *World) checkCommitted(h int64, res *BlockResult, block *tmtypes.Block, 
 		// total power query
 		if q, err := L.Query("stakes/total_power", nil, h); err == nil && q.Code == 0 {
 			if n, err := strconv.ParseInt(string(q.Value), 10, 64); err != nil || n != sumBonded {
-				w.violate("stake.totalquery", []string{"C11"}, h, "stakes/total_power answers %s, bonded sum is %d", q.Value, sumBonded)
+				w.violate("stake.totalquery", []string{"C11", "C19"}, h, "stakes/total_power answers %s, bonded sum is %d", q.Value, sumBonded)
 			}
 		} else if err != nil {
 			return err
@@ -344,7 +353,7 @@ func (w *World) checkCommitted(h int64, res *BlockResult, block *tmtypes.Block, 
 		// voting power query, judged only at the height just committed (it is computed with the live
 		// parameters, see S12): the sum of the total powers of the delegatees block execution will select.
 		// The sum over the top seats is the same however ties at the cut are broken.
-		if q, err := L.Query("stakes/voting_power", nil, h); err == nil && q.Code == 0 {
+		if q, err := L.Query("stakes/voting_power", nil, h); err == nil && q.Code == 0 && !w.adoptGov && w.selectionParamsStable(h) {
 			cs := snap.Candidates(snap.Gov.MinValidatorStake)
 			want := int64(0)
 			for i, c := range cs {
@@ -354,7 +363,7 @@ func (w *World) checkCommitted(h int64, res *BlockResult, block *tmtypes.Block, 
 				want += c.Power
 			}
 			if n, err := strconv.ParseInt(string(q.Value), 10, 64); err != nil || n != want {
-				w.violate("stake.votingquery", []string{"C11"}, h, "stakes/voting_power answers %s, the selected validators' total power is %d", q.Value, want)
+				w.violate("stake.votingquery", []string{"C11", "C19"}, h, "stakes/voting_power answers %s, the selected validators' total power is %d", q.Value, want)
 			}
 			if len(cs) < len(snap.Delegs) {
 				w.Probes.Hit("stake.delegatee-below-min-self")
@@ -477,7 +486,10 @@ func (w *World) checkRewards(h int64, f *blockFacts, res *BlockResult) {
 			mc = new(big.Int)
 		}
 		if c.Cmp(mc) != 0 {
-			w.violate("diff.reward", f.propsFor("reward", &a), h, "withdrawable reward of %s: node %s, model %s", a.Hex(), c, mc)
+			v := w.violate("diff.reward", f.propsFor("reward", &a), h, "withdrawable reward of %s: node %s, model %s", a.Hex(), c, mc)
+			if f.hugeWithdrawFailed[a] {
+				v.Shape = "failed-withdraw-of-2^255-or-more"
+			}
 		}
 	}
 	// the 'reward' event of BeginBlock
@@ -908,4 +920,26 @@ func (w *World) updateEvmBurn(h int64, snap *Snapshot) {
 		w.Probes.Hit("evm.selfdestruct-burn")
 		m.EvmBurn = burn
 	}
+}
+
+
+// selectionParamsStable: the two parameters of the validator selection (minimum own stake, seats) have been
+// the same from the block before h up to now. The voting_power handler selects with the parameters the
+// controller holds when it is asked, and the moment a decided change reaches that copy is not part of any
+// statement, so its answers are judged only away from such changes.
+func (w *World) selectionParamsStable(h int64) bool {
+	live := w.M.Gov
+	for x := h - 1; x <= w.M.H; x++ {
+		s := w.M.Snaps[x]
+		if s == nil {
+			if x < 1 {
+				continue
+			}
+			return false
+		}
+		if s.Gov.MinValidatorStake.Cmp(live.MinValidatorStake) != 0 || s.Gov.MaxValidatorCnt != live.MaxValidatorCnt {
+			return false
+		}
+	}
+	return true
 }
